@@ -142,10 +142,67 @@ def _lines(stmts, ind):
     return out
 
 
+_PURE_CALLS = {'getattr', 'hasattr', 'len', 'isinstance', 'bool', 'any', 'all', 'tuple', 'set', 'str'}
+
+
+def _pure_helper(f):
+    """a method `def m(self, p…): return <expr>` whose expression has no effect (attribute reads, operators, comprehensions, a few
+    builtins): returns (parameter names, expression) or None"""
+    a = f.args
+    if f.decorator_list or a.vararg or a.kwarg or a.kwonlyargs or a.defaults or a.posonlyargs or not a.args or a.args[0].arg != 'self':
+        return None
+    body = _strip(f.body)
+    if len(body) != 1 or not isinstance(body[0], ast.Return) or body[0].value is None:
+        return None
+    for n in ast.walk(body[0].value):
+        if isinstance(n, (ast.Await, ast.Yield, ast.YieldFrom, ast.Lambda, ast.NamedExpr, ast.Starred)):
+            return None
+        if isinstance(n, ast.Call) and not (isinstance(n.func, ast.Name) and n.func.id in _PURE_CALLS and not n.keywords):
+            return None
+    return [x.arg for x in a.args[1:]], body[0].value
+
+
+class _Inline(ast.NodeTransformer):
+    """`self.m(simple arguments)` -> the expression of the pure helper `m` of the same class (an extracted pure helper is the same
+    code); anything else stays a call"""
+    def __init__(self, owner, me):
+        self.helpers = {}
+        for f in owner.body:
+            if isinstance(f, ast.FunctionDef) and f.name != me and f.name.startswith('_') and not f.name.startswith('__'):
+                h = _pure_helper(f)
+                if h is not None:
+                    self.helpers[f.name] = h
+
+    def visit_Call(self, node):
+        import copy
+        self.generic_visit(node)
+        f = node.func
+        if isinstance(f, ast.Attribute) and isinstance(f.value, ast.Name) and f.value.id == 'self' and f.attr in self.helpers and not node.keywords:
+            params, expr = self.helpers[f.attr]
+            if len(params) == len(node.args) and all(isinstance(x, (ast.Name, ast.Constant)) for x in node.args):
+                sub = dict(zip(params, node.args))
+                bound = {n.id for n in ast.walk(expr) if isinstance(n, ast.Name) and isinstance(n.ctx, ast.Store)}
+                if not (bound & {x.id for x in node.args if isinstance(x, ast.Name)}):
+                    class S(ast.NodeTransformer):
+                        def visit_Name(s, n):
+                            return copy.deepcopy(sub[n.id]) if isinstance(n.ctx, ast.Load) and n.id in sub else n
+                    return S().visit(copy.deepcopy(expr))
+        return node
+
+
 def canon(fn):
     """canonical skeleton of a function: signature line, then the statement lines"""
     import copy
-    fn = copy.deepcopy(fn)
+    owner = fn.__dict__.pop('_owner', None)
+    try:
+        fn2 = copy.deepcopy(fn)
+    finally:
+        if owner is not None:
+            fn._owner = owner
+    fn = fn2
+    if owner is not None:
+        fn = _Inline(owner, fn.name).visit(fn)
+        ast.fix_missing_locations(fn)
     r = _Rename(fn)
     fn = r.visit(fn)
     ast.fix_missing_locations(fn)
@@ -164,6 +221,7 @@ def find(tree, cls, name):
         if isinstance(node, ast.ClassDef) and node.name == cls:
             for f in node.body:
                 if isinstance(f, ast.FunctionDef) and f.name == name:
+                    f._owner = node
                     return f
     raise RuntimeError('%s.%s not found' % (cls, name))
 
@@ -171,6 +229,9 @@ def find(tree, cls, name):
 def class_methods(tree, cls):
     for node in tree.body:
         if isinstance(node, ast.ClassDef) and node.name == cls:
+            for f in node.body:
+                if isinstance(f, ast.FunctionDef):
+                    f._owner = node
             return [f for f in node.body if isinstance(f, ast.FunctionDef)]
     raise RuntimeError('class %s not found' % cls)
 
@@ -373,6 +434,11 @@ def emit_c04(repo):
                        ('etodGetShouldStop', ('ExtendedToOriginalDecorator', '_get_shouldStop')),
                        ('etodSetShouldStop', ('ExtendedToOriginalDecorator', '_set_shouldStop'))]:
         t.append(ldef(nm, canon(find(real, c, m))[0]))
+    for nm, (c, m) in [('tfrInit', ('ThreadsafeForwardingResult', '__init__')), ('tfrSetShouldStop', ('ThreadsafeForwardingResult', '_set_shouldStop')),
+                       ('e2sInit', ('ExtendedToStreamDecorator', '__init__')), ('e2sStartTestRun', ('ExtendedToStreamDecorator', 'startTestRun')),
+                       ('e2sGetFailfast', ('ExtendedToStreamDecorator', '_get_failfast')),
+                       ('e2sSetFailfast', ('ExtendedToStreamDecorator', '_set_failfast'))]:
+        t.append(ldef(nm, canon(find(real, c, m))[0]))
     t.append(ldef('multiProperties', class_assigns(real, 'MultiTestResult')))
     t.append(ltable('decoForward', deco_table(real)))
     t.append(ltable('tfrAdd', tfr_failfast_sites(real)))
@@ -503,6 +569,11 @@ def emit_c05(repo):
                        ('gatherDetails', (None, 'gather_details')), ('onException', ('TestCase', 'onException'))]:
         t.append(ldef(nm, canon(find(tc, c, m))[0]))
     t.append(ldef('gotUserException', canon(find(rt, 'RunTest', '_got_user_exception'))[0]))
+    for nm, m in [('caseInit', '__init__'), ('caseReset', '_reset'), ('expectFailure', 'expectFailure'), ('useFixture', 'useFixture'),
+                  ('reportError', '_report_error'), ('reportExpectedFailure', '_report_expected_failure'), ('reportFailure', '_report_failure'),
+                  ('reportSkip', '_report_skip'), ('reportUnexpectedSuccess', '_report_unexpected_success')]:
+        t.append(ldef(nm, canon(find(tc, 'TestCase', m))[0]))
+    t.append(ldef('runCleanups', canon(find(rt, 'RunTest', '_run_cleanups'))[0]))
     t.append('end TTV.Generated.DetailSrc\n')
     return '\n'.join(t)
 
